@@ -17,6 +17,9 @@ From Borno Require Import ParserPrefix.
 From Borno Require Import ParserSC_Base.
 From Borno Require Import ParserSound.
 From Borno Require Import ParserComplete.
+From Borno Require Import ParserViableDefs.
+From Borno Require Import ParserViable.
+From Borno Require Import ParserViableStmt.
 
 (** lexing is a total function of the text *)
 Theorem C08_lex_total :
@@ -145,3 +148,70 @@ Theorem C08_rejects_at_exists :
          exists (pre : list token) (t : token) (w : list token), ts = pre ++ t :: w /\ rejects_at eofl ts pre t.
 Proof. exact (@rejects_at_exists). Qed.
 Print Assumptions C08_rejects_at_exists.
+
+(** ...and not earlier: the text before the token named by the first diagnostic is still the beginning of an accepted program - except in the two late-diagnosis situations, which are characterised positionally: an assignment to a non-assignable left side (diagnosed at or right of its =) and the 256th parameter (diagnosed one token after the comma) *)
+Theorem C08_viable_before_error :
+  forall (eofl : N) (f : nat) (ts : list token) (d : pdiag),
+         online eofl ts ->
+         first_diag (pprogram eofl f ts) = Some d ->
+         exists pre rem : list token,
+           ts = pre ++ rem /\
+           d = diag_at eofl rem (pd_kind d) /\
+           (forall rem' : list token, samehead rem rem' -> rejects eofl (pre ++ rem')) /\
+           (prog_viable eofl pre \/
+            (exists (a' : list token) (t0 : token) (b : list token),
+               pre = a' ++ t0 :: b /\
+               (tk t0 = TEQUAL /\ LhsBad a' \/ tk t0 = TCOMMA) /\
+               prog_viable eofl a' /\ (forall y : list token, rejects eofl (a' ++ t0 :: y)))).
+Proof. exact (@viable_before_error). Qed.
+Print Assumptions C08_viable_before_error.
+
+(** both halves together, for every token list on one line: no extension of the text up to the named token is accepted, and the text before it is viable *)
+Theorem C08_first_diag_is_first_bad_token :
+  forall (eofl : N) (f : nat) (ts : list token) (d : pdiag),
+         online eofl ts ->
+         first_diag (pprogram eofl f ts) = Some d ->
+         pd_where d <> None ->
+         exists (pre : list token) (t : token) (w0 : list token),
+           ts = pre ++ t :: w0 /\
+           d = diag_tok t (pd_kind d) /\
+           (forall w' : list token, ~ accepted eofl (pre ++ t :: w')) /\
+           (prog_viable eofl pre \/
+            (exists (a' : list token) (t0 : token) (b : list token),
+               pre = a' ++ t0 :: b /\
+               (tk t0 = TEQUAL /\ LhsBad a' \/ tk t0 = TCOMMA) /\
+               prog_viable eofl a' /\ (forall y : list token, ~ accepted eofl (a' ++ t0 :: y)))).
+Proof. exact (@first_diag_is_first_bad_token). Qed.
+Print Assumptions C08_first_diag_is_first_bad_token.
+
+(** without = and commas before the token there is no exception *)
+Theorem C08_first_bad_token_plain :
+  forall (eofl : N) (f : nat) (ts : list token) (d : pdiag),
+         online eofl ts ->
+         first_diag (pprogram eofl f ts) = Some d ->
+         pd_where d <> None ->
+         exists (pre : list token) (t : token) (w0 : list token),
+           ts = pre ++ t :: w0 /\
+           d = diag_tok t (pd_kind d) /\
+           (forall w' : list token, ~ accepted eofl (pre ++ t :: w')) /\
+           (Forall (fun x : token => tk x <> TEQUAL /\ tk x <> TCOMMA) pre -> prog_viable eofl pre).
+Proof. exact (@first_bad_token_plain). Qed.
+Print Assumptions C08_first_bad_token_plain.
+
+(** the expression-level statement *)
+Theorem C08_pexpr_viable :
+  forall (eofl : N) (f : nat) (ts : list token) (ds : list pdiag),
+         pexpr eofl f ts = PErr ds ->
+         exists (d : pdiag) (pre rem : list token),
+           ds = [d] /\
+           ts = pre ++ rem /\
+           d = diag_at eofl rem (pd_kind d) /\
+           (forall rem' : list token,
+            samehead rem rem' ->
+            forall (f' : nat) (e : expr) (r : list token), pexpr eofl f' (pre ++ rem') <> POk e r []) /\
+           (expr_viable eofl pre \/
+            (exists (a' : list token) (eq0 : token) (b : list token),
+               pre = a' ++ eq0 :: b /\
+               tk eq0 = TEQUAL /\ LhsBad a' /\ expr_viable eofl a' /\ expr_hopeless eofl (a' ++ [eq0]))).
+Proof. exact (@pexpr_viable). Qed.
+Print Assumptions C08_pexpr_viable.
